@@ -27,27 +27,27 @@ type Violation struct {
 
 // Result is what one simulated execution produced.
 type Result struct {
-	Violations []Violation       `json:"violations,omitempty"`
-	Probes     map[string]int    `json:"probes,omitempty"`
-	Faults     map[string]int    `json:"faults,omitempty"`
-	Info       map[string]int    `json:"info,omitempty"`
-	Steps      int               `json:"steps"`
-	Contended  int               `json:"contended"`
-	SimNS      int64             `json:"sim_ns"`
-	EventHash  string            `json:"event_hash"`
-	ILHash     uint64            `json:"il_hash"`
-	CaseKey    string            `json:"case_key"`
-	Nontrivial bool              `json:"nontrivial"`
-	Sample     any               `json:"sample,omitempty"`
-	Deadlock   bool              `json:"deadlock,omitempty"`
-	StepLimit  bool              `json:"step_limit,omitempty"`
-	Stuck      string            `json:"stuck,omitempty"`
-	Panic      string            `json:"panic,omitempty"`
-	Infra      string            `json:"infra,omitempty"` // harness/model trouble: exit 2, never a verdict
-	Trace      []string          `json:"trace,omitempty"`
+	Violations []Violation         `json:"violations,omitempty"`
+	Probes     map[string]int      `json:"probes,omitempty"`
+	Faults     map[string]int      `json:"faults,omitempty"`
+	Info       map[string]int      `json:"info,omitempty"`
+	Steps      int                 `json:"steps"`
+	Contended  int                 `json:"contended"`
+	SimNS      int64               `json:"sim_ns"`
+	EventHash  string              `json:"event_hash"`
+	ILHash     uint64              `json:"il_hash"`
+	CaseKey    string              `json:"case_key"`
+	Nontrivial bool                `json:"nontrivial"`
+	Sample     any                 `json:"sample,omitempty"`
+	Deadlock   bool                `json:"deadlock,omitempty"`
+	StepLimit  bool                `json:"step_limit,omitempty"`
+	Stuck      string              `json:"stuck,omitempty"`
+	Panic      string              `json:"panic,omitempty"`
+	Infra      string              `json:"infra,omitempty"` // harness/model trouble: exit 2, never a verdict
+	Trace      []string            `json:"trace,omitempty"`
 	Streams    map[string][]uint64 `json:"-"`
-	Leaked     int               `json:"leaked,omitempty"`
-	Hung       bool              `json:"hung,omitempty"`
+	Leaked     int                 `json:"leaked,omitempty"`
+	Hung       bool                `json:"hung,omitempty"`
 }
 
 // Env is handed to a property's Run function (executing as task "0").
@@ -64,10 +64,10 @@ func (e *Env) Violation(class, fp, format string, a ...any) {
 	e.res.Violations = append(e.res.Violations, Violation{Class: class, FP: fp, Detail: fmt.Sprintf(format, a...)})
 	simrt.Event("VIOLATION %s %s", class, fp)
 }
-func (e *Env) Probe(name string)        { e.res.Probes[name]++ }
+func (e *Env) Probe(name string)         { e.res.Probes[name]++ }
 func (e *Env) ProbeN(name string, n int) { e.res.Probes[name] += n }
-func (e *Env) Fault(kind string)        { e.res.Faults[kind]++ }
-func (e *Env) Info(name string, v int)  { e.res.Info[name] = v }
+func (e *Env) Fault(kind string)         { e.res.Faults[kind]++ }
+func (e *Env) Info(name string, v int)   { e.res.Info[name] = v }
 func (e *Env) Infra(format string, a ...any) {
 	if e.res.Infra == "" {
 		e.res.Infra = fmt.Sprintf(format, a...)
@@ -150,7 +150,7 @@ var tmpCounter int
 
 var registry = map[string]*Prop{}
 
-func Register(p *Prop) { registry[p.ID] = p }
+func Register(p *Prop)       { registry[p.ID] = p }
 func Lookup(id string) *Prop { return registry[id] }
 
 // Exec runs one simulated execution of p on the tape inside a fresh bubble.
@@ -194,6 +194,9 @@ func Exec(t *testing.T, p *Prop, tape *simrt.Tape, tier string, keepTrace bool) 
 			res.SimNS = int64(s.Elapsed())
 			res.EventHash = s.EventHash()
 			res.ILHash = s.InterleaveHash()
+			if s.TaskPanic != "" && res.Panic == "" {
+				res.Panic = s.TaskPanic
+			}
 			res.Deadlock = s.Deadlock
 			res.StepLimit = s.StepLimit
 			res.Stuck = s.DeadReport
